@@ -5,9 +5,14 @@
    - CEvents: a raw event stream through the real watchers (one batch);
    - CWatch: client operations through the fake cluster, the real watchers and, at each
      OSwap, the real converters; per reconciliation the batch handed over and the
-     ingresses whose host is in the haproxy model. *)
+     ingresses whose host is in the haproxy model;
+   - CWatchIC: the same kind of history with IngressClass create / update (controller,
+     parameters, metadata only) / delete events next to the Ingress events, evaluated on
+     Model/ClassWatchIC.v whose class table changes along the history; per
+     reconciliation the batch, Links[IngressClass] and the ingresses whose host is in
+     the haproxy model. *)
 From Coq Require Export String List Bool NArith.
-From HI Require Export Lib.XNs_Strs Model.ClassSel Model.ClassWatch.
+From HI Require Export Lib.XNs_Strs Model.ClassSel Model.ClassWatch Model.ClassWatchIC.
 Export ListNotations.
 Open Scope string_scope.
 Open Scope list_scope.
@@ -24,10 +29,12 @@ Inductive ccase :=
           (valid get : list bool) (lst : list string)
           (lvalid lget : list bool) (llst : list string)   (* legacy controller *)
 | CEvents (id : N) (c : cfg) (cls : classes) (evs : list wevent) (b : obatch)
-| CWatch (id : N) (c : cfg) (cls : classes) (ops : list op) (obs : list (obatch * list string)).
+| CWatch (id : N) (c : cfg) (cls : classes) (ops : list op) (obs : list (obatch * list string))
+| CWatchIC (id : N) (c : cfg) (ks0 : list iclass) (ops : list op2)
+           (obs : list (obatch * list string * list string)).
 
 Definition case_id (x : ccase) : N :=
-  match x with CDecide id _ _ _ _ _ _ _ _ _ => id | CEvents id _ _ _ _ => id | CWatch id _ _ _ _ => id end.
+  match x with CDecide id _ _ _ _ _ _ _ _ _ => id | CEvents id _ _ _ _ => id | CWatch id _ _ _ _ => id | CWatchIC id _ _ _ _ => id end.
 
 Fixpoint list_eqb {A B} (eqb : A -> B -> bool) (a : list A) (b : list B) : bool :=
   match a, b with
@@ -54,6 +61,11 @@ Definition same_names (a b : list string) : bool :=
 Definition obs_matches (m : batch * list string) (o : obatch * list string) : bool :=
   batch_matches (fst m) (fst o) && same_names (snd m) (snd o).
 
+Definition obs2_matches (m : batch2 * list string) (o : obatch * list string * list string) : bool :=
+  batch_matches (q_b (fst m)) (fst (fst o)) &&
+  list_eqb String.eqb (q_cl (fst m)) (snd (fst o)) &&
+  same_names (snd m) (snd o).
+
 Definition case_ok (x : ccase) : bool :=
   match x with
   | CDecide _ c cls ings valid get lst lvalid lget llst =>
@@ -69,6 +81,8 @@ Definition case_ok (x : ccase) : bool :=
       batch_matches (fold_left (handle c cls) evs batch0) b
   | CWatch _ c cls ops obs =>
       list_eqb obs_matches (w_obs (run c cls ops)) obs
+  | CWatchIC _ c ks0 ops obs =>
+      list_eqb obs2_matches (s_obs (run2 c ks0 ops)) obs
   end.
 
 Definition mismatches (cs : list ccase) : list N :=
